@@ -74,6 +74,9 @@ pub struct Event {
 pub struct InjectedPanic;
 pub struct BudgetExceeded;
 
+/// a call is cut off (`no_return`) when it has consumed this many times its natural volume in FRESH uniform
+/// bytes (volume = the type's width for one value, len x width for a slice fill; at least 8 bytes). Counting bytes,
+/// not requests, keeps the cut-off independent of how an implementation splits its draws into requests.
 pub const FRESH_BUDGET: u32 = 1000;
 pub const SWEEP_BUDGET: u32 = 1000;
 
@@ -87,8 +90,9 @@ pub struct SimRng {
     pub events: Vec<Event>,
     call: u32,
     attempt: u32,
-    fresh_in_call: u32,
-    total_in_call: u32,
+    fresh_bytes_in_call: u64,
+    total_in_call: u64,
+    unit_bytes: u64,
     last_word: Vec<u8>,
     pub bytes_delivered: u64,
     /// lean mode for complete word-space sweeps: first request gets `word`, later ones fresh words; no history
@@ -112,8 +116,9 @@ impl SimRng {
             events: Vec::new(),
             call: 0,
             attempt: 0,
-            fresh_in_call: 0,
+            fresh_bytes_in_call: 0,
             total_in_call: 0,
+            unit_bytes: 8,
             last_word: Vec::new(),
             bytes_delivered: 0,
             sweep: None,
@@ -146,10 +151,16 @@ impl SimRng {
 
     /// start a new call of a bnum entry point; `plan` answers its first draws, after which words are fresh
     pub fn begin_call(&mut self, plan: &[Plan]) -> usize {
+        self.begin_call_vol(plan, 8)
+    }
+
+    /// `unit` = natural volume of the call in bytes (see FRESH_BUDGET)
+    pub fn begin_call_vol(&mut self, plan: &[Plan], unit: usize) -> usize {
         self.call += 1;
         self.attempt = 0;
-        self.fresh_in_call = 0;
+        self.fresh_bytes_in_call = 0;
         self.total_in_call = 0;
+        self.unit_bytes = unit.max(8) as u64;
         self.last_word.clear();
         self.plan.clear();
         self.plan.extend(plan.iter().cloned());
@@ -175,6 +186,10 @@ impl SimRng {
         self.attempt += 1;
         self.total_in_call += 1;
         let req = dest.len() as u32;
+        // guard against a loop of empty requests: far beyond what any byte-bounded call can make
+        if self.total_in_call > FRESH_BUDGET as u64 * (self.unit_bytes + 8) + 4096 {
+            std::panic::panic_any(BudgetExceeded);
+        }
         if let Some((buf, pos)) = &mut self.stream {
             // Stream mode: no faults, splitting law holds
             // the stream is conceptually infinite: past the scripted part it continues with a fixed
@@ -194,8 +209,8 @@ impl SimRng {
         let fallible = method == Method::TryFillBytes && !self.infallible;
         let (resp, src) = match p {
             Plan::Fresh => {
-                self.fresh_in_call += 1;
-                if self.fresh_in_call > FRESH_BUDGET {
+                self.fresh_bytes_in_call += dest.len() as u64;
+                if self.fresh_bytes_in_call > FRESH_BUDGET as u64 * self.unit_bytes {
                     std::panic::panic_any(BudgetExceeded);
                 }
                 self.fresh.fill(dest);
@@ -213,8 +228,8 @@ impl SimRng {
                     (Resp::Ok(dest.to_vec()), Src::Repeat)
                 } else {
                     // nothing to repeat (first draw, or a different request size): a fresh word
-                    self.fresh_in_call += 1;
-                    if self.fresh_in_call > FRESH_BUDGET {
+                    self.fresh_bytes_in_call += dest.len() as u64;
+                    if self.fresh_bytes_in_call > FRESH_BUDGET as u64 * self.unit_bytes {
                         std::panic::panic_any(BudgetExceeded);
                     }
                     self.fresh.fill(dest);
